@@ -88,6 +88,27 @@ std::vector<uint64_t> RunProgram(Tape t, std::ostream& d, std::string& sizeClass
       h = oracle::HD(c->GetTolerance(), h);
       fp.push_back(h);
     }
+  } else if (t.flip()) {
+    // import of a mesh with real pinched vertices (pairs of tetrahedra sharing their apex index) and more than
+    // 1e4 halfedges: SplitPinchedVerts and the halfedge pairing run their parallel paths
+    int pairs = t.range(600, 2400);
+    sizeClass = "pinched import";
+    d << "import(" << pairs << " apex-sharing tetrahedron pairs)";
+    MeshGL64 g;
+    g.numProp = 3;
+    auto V = [&](double x, double y, double z) { g.vertProperties.push_back(x); g.vertProperties.push_back(y); g.vertProperties.push_back(z); return uint64_t(g.vertProperties.size() / 3 - 1); };
+    auto T = [&](uint64_t a, uint64_t b, uint64_t c) { g.triVerts.push_back(a); g.triVerts.push_back(c); g.triVerts.push_back(b); };  // outward-facing
+    for (int i = 0; i < pairs; ++i) {
+      double x = 3.0 * (i % 50), y = 3.0 * (i / 50), s = 0.5 + 0.4 * t.unit();
+      uint64_t ap = V(x, y, 0);
+      uint64_t a0 = V(x + s, y, 1), a1 = V(x - s, y + s, 1), a2 = V(x - s, y - s, 1);
+      uint64_t b0 = V(x + s, y, -1), b1 = V(x - s, y - s, -1), b2 = V(x - s, y + s, -1);
+      T(ap, a0, a1); T(ap, a1, a2); T(ap, a2, a0); T(a0, a2, a1);
+      T(ap, b0, b1); T(ap, b1, b2); T(ap, b2, b0); T(b0, b2, b1);
+    }
+    Manifold m(g);
+    fp.push_back(oracle::Fingerprint(m, true));
+    fp.push_back(uint64_t(m.Status()));
   } else {
     // Triangulate of a generated polygon set
     int n = t.range(3, 400);
